@@ -20,6 +20,12 @@
        `cache`) and, generally, for every kind whose rows are written with the spec-side queries
        (`order_irrelevant_of_same_queries`).
 
+  PPTT processor node: its flags field can also be *assigned* directly (`set=0.value`, the Rust
+  `node.flags = v`).  The general fact is `proc_flags_field` (last written value OR-ed with the
+  builders invoked after the write); the set-semantics statements above hold for `.proc` exactly
+  for programs without such a write (`noFlagsWrite`), and `proc_flags_write_indistinguishable`
+  shows the hypothesis is needed.
+
   One statement suggested for `.cache` is false and kept as `cache_order_irrelevant_lastval`
   with its refutation: allocation type / cache type / write policy are OR-ed into the attributes
   byte, so the *set* of values supplied matters, not just the last one.
@@ -65,12 +71,21 @@ theorem flags_field_rintcAff (hwf : entryWf .rintcAff c opts = true) (h : buildE
   · simp [flagSum, flagBits]
   · exact Nat.lt_of_le_of_lt hb (by decide)
 
-theorem flags_field_proc (hwf : entryWf .proc c opts = true) (h : buildEntry .proc c opts = .ok a) :
-    readAt (entryBytes .proc a) 4 4 = some (flagSum opts (flagBits .proc)) := by
-  have hb := flagSum_le opts (flagBits .proc)
+/-- PPTT processor node, in general: the flags dword holds the value of the last direct write of
+    the field (0 if there is none) OR-ed with the specification bits of the flag builders invoked
+    after that write -/
+theorem proc_flags_field (hwf : entryWf .proc c opts = true) (h : buildEntry .proc c opts = .ok a) :
+    readAt (entryBytes .proc a) 4 4 = some (procFlags opts) := by
   refine readAt_row .proc c opts a _ _ 4 4 _ (by decide) hwf (by intro h; cases h) h rfl ?_ ?_
-  · simp [flagSum, flagBits, Nat.add_assoc]
-  · exact Nat.lt_of_le_of_lt hb (by decide)
+  · simp
+  · rw [entryWf, Bool.and_eq_true] at hwf
+    exact ProcF.procFlags_lt opts hwf.2
+
+theorem flags_field_proc (hwf : entryWf .proc c opts = true) (h : buildEntry .proc c opts = .ok a)
+    (hnw : noFlagsWrite opts = true) :
+    readAt (entryBytes .proc a) 4 4 = some (flagSum opts (flagBits .proc)) := by
+  rw [proc_flags_field c opts a hwf h, ProcF.procFlags_of_noFlagsWrite opts hnw]
+  simp [flagSum, flagBits, Nat.add_assoc]
 
 theorem flags_field_cache (hwf : entryWf .cache c opts = true) (h : buildEntry .cache c opts = .ok a) :
     readAt (entryBytes .cache a) 4 4 = some (flagSum opts (flagBits .cache)) := by
@@ -113,16 +128,19 @@ end perKind
     (any options, any order, any multiplicity), the flags field read back little-endian at its
     specification offset is the sum of the specification bits of exactly those flag options that
     occur in the program (plus, for the HMAT locality structure, the hierarchy code that shares
-    the byte). -/
+    the byte).  For the PPTT processor node, whose flags field can also be assigned directly, this
+    is the statement for programs without such a write (`hnw`); see `proc_flags_field` for the
+    general value and `proc_flags_write_indistinguishable` for why `hnw` is needed. -/
 theorem flags_field (k : Kind) (c : EArgs) (opts : List Opt) (a : EArgs) (hk : flagBits k ≠ [])
-    (hwf : entryWf k c opts = true) (h : buildEntry k c opts = .ok a) :
+    (hwf : entryWf k c opts = true) (h : buildEntry k c opts = .ok a)
+    (hnw : k = .proc → noFlagsWrite opts = true) :
     readAt (entryBytes k a) (flagField k).1 (flagField k).2 =
       some (flagBase k c + flagSum opts (flagBits k)) := by
   cases k
   case mem => simpa only [flagField, flagBase, Nat.zero_add] using flags_field_mem c opts a hwf h
   case gi => simpa only [flagField, flagBase, Nat.zero_add] using flags_field_gi c opts a hwf h
   case rintcAff => simpa only [flagField, flagBase, Nat.zero_add] using flags_field_rintcAff c opts a hwf h
-  case proc => simpa only [flagField, flagBase, Nat.zero_add] using flags_field_proc c opts a hwf h
+  case proc => simpa only [flagField, flagBase, Nat.zero_add] using flags_field_proc c opts a hwf h (hnw rfl)
   case cache => simpa only [flagField, flagBase, Nat.zero_add] using flags_field_cache c opts a hwf h
   case cfmws => simpa only [flagField, flagBase, Nat.zero_add] using flags_field_cfmws c opts a hwf h
   case loc => simpa only [flagField, flagBase] using flags_field_loc c opts a hwf h
@@ -154,26 +172,31 @@ theorem flag_bit_iff (k : Kind) (c : EArgs) (opts : List Opt) (hwf : entryWf k c
 /-- **C11, every flag option is read back**: the flags field of the emitted bytes can be read at
     its specification offset, and in it the specification bit `b` of flag option `nm` is set if
     and only if `nm` was invoked (at least once, anywhere in the program) — whatever other
-    options were invoked. -/
+    options were invoked.  (PPTT processor node: for programs that do not assign the flags field
+    directly, `hnw`; in general see `proc_flag_set_iff`.) -/
 theorem flag_set_iff (k : Kind) (c : EArgs) (opts : List Opt) (a : EArgs)
     (hwf : entryWf k c opts = true) (h : buildEntry k c opts = .ok a)
+    (hnw : k = .proc → noFlagsWrite opts = true)
     (nm : String) (b : Nat) (hm : (nm, b) ∈ flagBits k) :
     ∃ f, readAt (entryBytes k a) (flagField k).1 (flagField k).2 = some f ∧
       (f &&& b = b ↔ has opts nm = true) :=
-  ⟨_, flags_field k c opts a (List.ne_nil_of_mem hm) hwf h, flag_bit_iff k c opts hwf nm b hm⟩
+  ⟨_, flags_field k c opts a (List.ne_nil_of_mem hm) hwf h hnw, flag_bit_iff k c opts hwf nm b hm⟩
 
 /-- **C11, distinguishability**: two builder programs for the same structure with the same
     constructor arguments that differ in whether flag option `nm` is invoked never emit the same
     bytes, whatever else they invoke (other flags, valued options, list elements, in any order
-    and number).  No extra hypothesis is needed for any of the eight kinds. -/
+    and number).  No extra hypothesis is needed for seven of the eight kinds; for the PPTT processor
+    node neither program may assign the flags field directly (`hnw`, `hnw'` — needed:
+    `proc_flags_write_indistinguishable`). -/
 theorem flag_distinguishable (k : Kind) (c : EArgs) (opts opts' : List Opt) (a a' : EArgs)
     (hwf : entryWf k c opts = true) (hwf' : entryWf k c opts' = true)
     (h : buildEntry k c opts = .ok a) (h' : buildEntry k c opts' = .ok a')
+    (hnw : k = .proc → noFlagsWrite opts = true) (hnw' : k = .proc → noFlagsWrite opts' = true)
     (nm : String) (b : Nat) (hm : (nm, b) ∈ flagBits k) (hd : has opts nm ≠ has opts' nm) :
     entryBytes k a ≠ entryBytes k a' := by
   intro he
-  obtain ⟨f, hf, hi⟩ := flag_set_iff k c opts a hwf h nm b hm
-  obtain ⟨f', hf', hi'⟩ := flag_set_iff k c opts' a' hwf' h' nm b hm
+  obtain ⟨f, hf, hi⟩ := flag_set_iff k c opts a hwf h hnw nm b hm
+  obtain ⟨f', hf', hi'⟩ := flag_set_iff k c opts' a' hwf' h' hnw' nm b hm
   rw [he, hf'] at hf
   cases hf
   exact hd (Bool.eq_iff_iff.mpr (hi.symm.trans hi'))
@@ -193,6 +216,70 @@ example : entryWf .loc { n := #[3, 0, 0, 100, 1, 1] } [⟨"nst", []⟩, ⟨"sete
     ("nst", 0x20) ∈ flagBits .loc ∧
     has [⟨"nst", []⟩, ⟨"sete", [0, 0, 7]⟩] "nst" ≠ has [⟨"sete", [0, 0, 7]⟩] "nst" :=
   ⟨by decide, ⟨_, rfl⟩, by decide, by decide⟩
+
+/-! ### PPTT processor node: direct writes of the flags field -/
+
+/-- the statements `flags_field` / `flag_set_iff` / `flag_distinguishable` for the PPTT processor
+    node *without* the `noFlagsWrite` hypothesis … -/
+def proc_flag_distinguishable_unguarded : Prop :=
+  ∀ (c : EArgs) (opts opts' : List Opt) (a a' : EArgs),
+    entryWf .proc c opts = true → entryWf .proc c opts' = true →
+    buildEntry .proc c opts = .ok a → buildEntry .proc c opts' = .ok a' →
+    ∀ nm b, (nm, b) ∈ flagBits .proc → has opts nm ≠ has opts' nm → entryBytes .proc a ≠ entryBytes .proc a'
+
+/-- … are false: `node.flags = 1` and `node.physical()` emit the same bytes, although `physical`
+    is invoked in one program and not in the other -/
+theorem proc_flags_write_indistinguishable :
+    (∃ a a', buildEntry .proc {} [⟨"set", [0, 1]⟩] = .ok a ∧ buildEntry .proc {} [⟨"physical", []⟩] = .ok a' ∧
+      entryBytes .proc a = entryBytes .proc a') ∧
+    ¬ proc_flag_distinguishable_unguarded := by
+  refine ⟨⟨_, _, rfl, rfl, by decide⟩, fun H => ?_⟩
+  exact H {} [⟨"set", [0, 1]⟩] [⟨"physical", []⟩] _ _ (by decide) (by decide) rfl rfl "physical" 1
+    (by decide) (by decide) (by decide)
+
+/-- PPTT processor node, bit by bit and in general: the specification bit `b` of flag option `nm`
+    is set in the emitted flags dword iff the last direct write of the field had it set or `nm`
+    was invoked after that write -/
+theorem proc_flag_set_iff (c : EArgs) (opts : List Opt) (a : EArgs)
+    (hwf : entryWf .proc c opts = true) (h : buildEntry .proc c opts = .ok a)
+    (nm : String) (b : Nat) (hm : (nm, b) ∈ flagBits .proc) :
+    ∃ f, readAt (entryBytes .proc a) 4 4 = some f ∧
+      (f &&& b = b ↔ (lastSet opts 0 0 &&& b = b ∨ has (afterLastFlagsWrite opts) nm = true)) := by
+  refine ⟨_, proc_flags_field c opts a hwf h, ?_⟩
+  rw [ProcF.procFlags_eq]
+  have hp : (has (afterLastFlagsWrite opts) nm, b) ∈
+      (flagBits .proc).map (fun p => (has (afterLastFlagsWrite opts) p.1, p.2)) :=
+    List.mem_map_of_mem (f := fun p => (has (afterLastFlagsWrite opts) p.1, p.2)) hm
+  have key : (flagSum (afterLastFlagsWrite opts) (flagBits .proc) &&& b = b ↔
+      has (afterLastFlagsWrite opts) nm = true) := by
+    rw [flagSum_eq_Sl]; exact mask5 _ _ _ _ _ _ hp
+  have e : flagSum (afterLastFlagsWrite opts) (flagBits .proc) = procBuilderBits (afterLastFlagsWrite opts) := by
+    simp [flagSum, flagBits, procBuilderBits, Nat.add_assoc]
+  rw [e] at key
+  rw [← key]
+  simp only [flagBits, List.mem_cons, Prod.mk.injEq, List.not_mem_nil, or_false] at hm
+  rcases hm with ⟨_, rfl⟩ | ⟨_, rfl⟩ | ⟨_, rfl⟩ | ⟨_, rfl⟩ | ⟨_, rfl⟩
+  · exact ProcF.or_and_pow2 _ _ 0
+  · exact ProcF.or_and_pow2 _ _ 1
+  · exact ProcF.or_and_pow2 _ _ 2
+  · exact ProcF.or_and_pow2 _ _ 3
+  · exact ProcF.or_and_pow2 _ _ 4
+
+/-- non-vacuity of `proc_flags_field` / `proc_flag_set_iff`: `physical(); flags = 6; leaf()` gives 14
+    (the write discards `physical`, `leaf` is OR-ed in afterwards) -/
+example : entryWf .proc {} [⟨"physical", []⟩, ⟨"set", [0, 6]⟩, ⟨"leaf", []⟩] = true ∧
+    ∃ a, buildEntry .proc {} [⟨"physical", []⟩, ⟨"set", [0, 6]⟩, ⟨"leaf", []⟩] = .ok a ∧
+      readAt (entryBytes .proc a) 4 4 = some 14 ∧
+      procFlags [⟨"physical", []⟩, ⟨"set", [0, 6]⟩, ⟨"leaf", []⟩] = 14 :=
+  ⟨by decide, _, rfl, by decide, by decide⟩
+
+/-- non-vacuity of the `.proc` instances of `flags_field` / `flag_distinguishable` -/
+example : entryWf .proc {} [⟨"set", [1, 3]⟩, ⟨"leaf", []⟩] = true ∧ entryWf .proc {} [⟨"set", [1, 3]⟩] = true ∧
+    noFlagsWrite [⟨"set", [1, 3]⟩, ⟨"leaf", []⟩] = true ∧ noFlagsWrite [⟨"set", [1, 3]⟩] = true ∧
+    (∃ a, buildEntry .proc {} [⟨"set", [1, 3]⟩, ⟨"leaf", []⟩] = .ok a) ∧
+    (∃ a, buildEntry .proc {} [⟨"set", [1, 3]⟩] = .ok a) ∧
+    has [⟨"set", [1, 3]⟩, ⟨"leaf", []⟩] "leaf" ≠ has [⟨"set", [1, 3]⟩] "leaf" :=
+  ⟨by decide, by decide, by decide, by decide, ⟨_, rfl⟩, ⟨_, rfl⟩, by decide⟩
 
 /-! ## 3. gating flags -/
 
@@ -405,10 +492,13 @@ structure SameQueries (opts opts' : List Opt) : Prop where
 /-- **order and repetition do not matter, in general**: for every structure whose reference rows
     are written with the spec-side queries only (all but the GICC and HMAT-locality structures,
     which filter on argument values, and the excluded GED), two programs on which `has`,
-    `lastVal`, `lastSet` and `pushed` agree emit identical bytes -/
+    `lastVal`, `lastSet` and `pushed` agree emit identical bytes.  The PPTT processor node has one
+    more query, its flags value `procFlags` (sensitive to the position of the flag builders
+    relative to a direct write of the field): `hpf`, which follows from the other queries for
+    programs without such a write (`ProcF.procFlags_congr`). -/
 theorem order_irrelevant_of_same_queries (k : Kind) (c : EArgs) (opts opts' : List Opt) (a a' : EArgs)
     (hk : k ≠ .ged) (hk1 : k ≠ .gicc) (hk2 : k ≠ .loc) (hq : k = .qosctrl → C04.qosCtorWf c)
-    (q : SameQueries opts opts')
+    (q : SameQueries opts opts') (hpf : k = .proc → procFlags opts = procFlags opts')
     (hwf : entryWf k c opts = true) (hwf' : entryWf k c opts' = true)
     (h : buildEntry k c opts = .ok a) (h' : buildEntry k c opts' = .ok a') :
     entryBytes k a = entryBytes k a' := by
@@ -425,7 +515,8 @@ theorem order_irrelevant_of_same_queries (k : Kind) (c : EArgs) (opts opts' : Li
   cases k
   case gicc => exact absurd rfl hk1
   case loc => exact absurd rfl hk2
-  all_goals simp only [rows, bit, aerCommon, ghesCommon, q1, q2, q3, p1, p2, p3, p4, p5, p6, p7, p8]
+  case proc => simp only [rows, hpf rfl, q3, p2]
+  all_goals simp only [rows, bit, aerCommon, ghesCommon, q1, q2, q3, p1, p3, p4, p5, p6, p7, p8]
 
 /-- non-vacuity of the order theorems: `enabled` twice around a proximity-domain call against once -/
 example : SameQueries [⟨"en", []⟩, ⟨"pd", [3]⟩, ⟨"en", []⟩] [⟨"pd", [3]⟩, ⟨"en", []⟩] ∧
